@@ -7,7 +7,7 @@ package dhcpd
 //vx:overlay internal/dhcpd/zz_vx_c14.go
 //vx:entry vxC14Leases reach=crashed,saved,save-failed
 //vx:stub encoding/json.Marshal vxC14Marshal
-//vx:note every save runs over a model of the file system at the os boundary (os.OpenFile/CreateTemp/Lstat/Remove/Rename, (*os.File).Write/Sync/Close ...): each mutating call is a step; crash step and one failing step symbolic; contents of 0..3 symbolic bytes (old version present or absent); unsynced file data may be lost from any point on after a crash; directory operations atomic and ordered (POSIX rename is the trusted base)
+//vx:note every save runs over a model of the file system at the os boundary (os.OpenFile/CreateTemp/Lstat/Remove/Rename, (*os.File).Write/Sync/Close ...): each mutating call is a step; crash step and up to two failing steps symbolic; contents of 0..3 symbolic bytes (old version present or absent); unsynced file data may be lost from any point on after a crash; directory operations atomic and ordered (POSIX rename is the trusted base)
 //vx:note outside: directory fsync / durability of the rename itself, Windows branch, the JSON/YAML encoders producing the buffer, content sizes beyond the bound (a save is one Write call; size does not enter control flow)
 
 import (
